@@ -297,50 +297,67 @@ def objSym (sym : String) (static : Bool) : String :=
   let s := if sym.startsWith "·" then "p." ++ (sym.drop 1).toString else sym
   if static then s ++ "<1>" else s
 
+/-- all the errors of a memory operand are reported together (`a; b`): a listed finding that explains one of them
+(its verdict regex is anchored) then cannot hide another one on the same operand -/
+def joinErrs (es : List (Option String)) : Option String :=
+  match es.filterMap id with
+  | [] => none
+  | xs => some ("; ".intercalate xs)
+
+/-- access width: the form's operand type names a width (m8 … m512): both decoders' widths must be that
+(0 = the decoder reports none; the second decoder does not know broadcasts) -/
+def widthErr (dec : Decoded) (ty : String) (w : Nat) (bcst : Bool) : Option String :=
+  match typeBytes ty with
+  | some n =>
+    if w != 0 && w != n then some s!"bad-width want {n} got {w}"
+    else if dec.xw != 0 && dec.xw != n && !bcst then some s!"bad-width want {n} got {dec.xw} (x86asm)"
+    else none
+  | none => none
+
+def bcstErr (g : Given) (bcst : Bool) : Option String :=
+  if bcst != g.sfx.contains "BCST" then some s!"bad-broadcast want {g.sfx.contains "BCST"} got {bcst}" else none
+
+/-- the index register that is printed (hence used): only when scale != 0 -/
+def usedIndex (index : Option HReg) (scale : Nat) : Option HReg := if scale == 0 then none else index
+
+def idxErr (index : Option HReg) (scale : Nat) (dindex : String) (dscale : Nat) : Option String :=
+  joinErrs [addrRegMatch "index" (usedIndex index scale) dindex,
+    if (usedIndex index scale).isSome && dscale != scale then some s!"bad-scale want {scale} got {dscale}" else none]
+
+def relocOf (dec : Decoded) (sym : String) (static : Bool) : Option Reloc :=
+  dec.relocs.find? (fun r => r.sym == objSym sym static)
+
+def baseDispErr (dec : Decoded) (sym : String) (static : Bool) (disp : Int) (base : Option HReg)
+    (dbase : String) (ddisp : Int) : Option String :=
+  match base with
+  | none => if dbase == "-" && ddisp == disp then none else some s!"bad-base want none got {dbase}"
+  | some b =>
+    if b.kind != 0 then
+      joinErrs [addrRegMatch "base" (some b) dbase,
+        if ddisp == disp then none else some s!"bad-disp want {disp} got {ddisp}"]
+    else if b.name == "FP" then
+      -- frame size 0: the arguments start above the return address
+      if dbase != "rsp" then some s!"bad-base want rsp(FP) got {dbase}"
+      else if ddisp == disp + 8 then none else some s!"bad-disp want {disp + 8} got {ddisp}"
+    else if b.name == "SP" then
+      if dbase != "rsp" then some s!"bad-base want rsp(SP) got {dbase}"
+      else if ddisp == disp then none else some s!"bad-disp want {disp} got {ddisp}"
+    else if b.name == "SB" then
+      match relocOf dec sym static with
+      | none => some s!"bad-reloc want {objSym sym static} got none"
+      | some r =>
+        if r.kind == "R_PCREL" then
+          if dbase != "rip" then some s!"bad-base want rip got {dbase}"
+          else if r.add + ((dec.codeLen : Int) - r.hi) == disp then none
+          else some s!"bad-disp want {disp} got reloc {r.add}+{(dec.codeLen : Int) - r.hi}"
+        else if r.kind == "R_ADDR" then
+          if r.add == disp then none else some s!"bad-disp want {disp} got reloc {r.add}"
+        else some s!"bad-reloc kind {r.kind}"
+    else some s!"bad-base pseudo {b.name}"
+
 def memMatch (g : Given) (dec : Decoded) (ty : String) (sym : String) (static : Bool) (disp : Int) (base index : Option HReg) (scale : Nat)
     (w : Nat) (dbase dindex : String) (dscale : Nat) (ddisp : Int) (bcst : Bool) : Option String :=
-  -- width
-  let widthErr : Option String :=
-    match typeBytes ty with
-    | some n =>
-      if w != 0 && w != n then some s!"bad-width want {n} got {w}"
-      else if dec.xw != 0 && dec.xw != n && !bcst then some s!"bad-width want {n} got {dec.xw} (x86asm)"
-      else none
-    | none => none
-  let bcstErr : Option String :=
-    if bcst != g.sfx.contains "BCST" then some s!"bad-broadcast want {g.sfx.contains "BCST"} got {bcst}" else none
-  -- index: printed (hence used) only when scale != 0
-  let index' := if scale == 0 then none else index
-  let idxErr : Option String :=
-    (addrRegMatch "index" index' dindex).orElse fun _ =>
-      if index'.isSome && dscale != scale then some s!"bad-scale want {scale} got {dscale}" else none
-  let baseDisp : Option String :=
-    match base with
-    | none => if dbase == "-" && ddisp == disp then none else some s!"bad-base want none got {dbase}"
-    | some b =>
-      if b.kind != 0 then
-        (addrRegMatch "base" (some b) dbase).orElse fun _ =>
-          if ddisp == disp then none else some s!"bad-disp want {disp} got {ddisp}"
-      else if b.name == "FP" then
-        -- frame size 0: the arguments start above the return address
-        if dbase != "rsp" then some s!"bad-base want rsp(FP) got {dbase}"
-        else if ddisp == disp + 8 then none else some s!"bad-disp want {disp + 8} got {ddisp}"
-      else if b.name == "SP" then
-        if dbase != "rsp" then some s!"bad-base want rsp(SP) got {dbase}"
-        else if ddisp == disp then none else some s!"bad-disp want {disp} got {ddisp}"
-      else if b.name == "SB" then
-        match dec.relocs.find? (fun r => r.sym == objSym sym static) with
-        | none => some s!"bad-reloc want {objSym sym static} got none"
-        | some r =>
-          if r.kind == "R_PCREL" then
-            if dbase != "rip" then some s!"bad-base want rip got {dbase}"
-            else if r.add + ((dec.codeLen : Int) - r.hi) == disp then none
-            else some s!"bad-disp want {disp} got reloc {r.add}+{(dec.codeLen : Int) - r.hi}"
-          else if r.kind == "R_ADDR" then
-            if r.add == disp then none else some s!"bad-disp want {disp} got reloc {r.add}"
-          else some s!"bad-reloc kind {r.kind}"
-      else some s!"bad-base pseudo {b.name}"
-  baseDisp.orElse fun _ => idxErr.orElse fun _ => widthErr.orElse fun _ => bcstErr
+  joinErrs [baseDispErr dec sym static disp base dbase ddisp, idxErr index scale dindex dscale, widthErr dec ty w bcst, bcstErr g bcst]
 
 def immMatch (g : Given) (ty : String) (t : ImmTy) (v : Int) (d : Nat) : Option String :=
   let ctx := immCtxOf g.opcode g.sig ty
@@ -361,6 +378,11 @@ def opMatch (g : Given) (dec : Decoded) (ty : String) (e : XOp) (d : DArg) : Opt
   | .mem sym st disp b i sc, .mem w _ db di dsc dd bc => memMatch g dec ty sym st disp b i sc w db di dsc dd bc
   | .imm t v, .imm dv => immMatch g ty t v dv
   | .label _, .jmp rel => if rel == 0 then none else some s!"bad-target want 0 got {rel}"
+  -- a label reference that the assembler read as a register or a memory operand (an indirect branch)
+  | .label _, .reg n => some s!"bad-label-as-register {n}"
+  | .label _, .mem _ _ b _ _ _ _ => some s!"bad-label-as-memory {b}"
+  -- a memory operand (indirect branch through memory) that was assembled as a direct branch
+  | .mem _ _ _ _ _ _, .jmp _ => some "bad-mem-as-direct-branch"
   | .rel v, .jmp rel => if rel == v then none else some s!"bad-target want {v} got {rel}"
   | _, _ => some "bad-kind"
 
@@ -425,23 +447,34 @@ def selfXchgIsNop (g : Given) (dec : Decoded) : Bool :=
    | [.reg a, .reg b] => a.kind == 1 && a.idx == 0 && a.size == 8 && b.kind == 1 && b.idx == 0 && b.size == 8
    | _ => false)
 
-/-- The verdict on an assembled instruction. -/
-def judge (g : Given) (dec : Decoded) : String :=
-  if selfXchgIsNop g dec then "ok" else
-  if dec.mnem == "undecoded" || dec.mnem == "unparsed" || dec.mnem == "multiple" then s!"bad-decode {dec.mnem}" else
-  let typed := g.sig.zip g.ops
-  if typed.length != g.ops.length then "bad-request signature" else
-  let mn := mnemOK g.opcode g.ops.length dec.mnem
-  if mn == some false then s!"bad-mnemonic {dec.mnem}" else
-  let want := intelOrder g.opcode typed
+/-- operands (with the operand type of the matched form) in the order the decoder shows them -/
+def wanted (g : Given) : List (String × XOp) := intelOrder g.opcode (g.sig.zip g.ops)
+
+/-- operands against decoded arguments, either order for the symmetric operations; the error reported for a
+symmetric operation is the more specific of the two -/
+def seqErr (g : Given) (dec : Decoded) : Option String :=
   let got := plainArgs dec.args
-  let r := matchSeq g dec want got
-  let r := if r.isSome && symmetric dec.mnem && (matchSeq g dec want.reverse got).isNone then none else r
-  match r with
-  | some why => why
-  | none =>
-    match sfxMatch g dec.args with
-    | some why => why
-    | none => "ok"
+  match matchSeq g dec (wanted g) got with
+  | none => none
+  | some why =>
+    if symmetric dec.mnem then
+      match matchSeq g dec (wanted g).reverse got with
+      | none => none
+      | some why2 => if why == "bad-kind" then some why2 else some why
+    else some why
+
+/-- The verdict on an assembled instruction: `none` = it is the named operation on the operands given. -/
+def judgeO (g : Given) (dec : Decoded) : Option String :=
+  if selfXchgIsNop g dec then none else
+  if dec.mnem == "undecoded" || dec.mnem == "unparsed" || dec.mnem == "multiple" then some s!"bad-decode {dec.mnem}" else
+  if (g.sig.zip g.ops).length != g.ops.length then some "bad-request signature" else
+  if mnemOK g.opcode g.ops.length dec.mnem == some false then some s!"bad-mnemonic {dec.mnem}" else
+  (seqErr g dec).orElse fun _ => sfxMatch g dec.args
+
+/-- the response string: `ok` exactly when `judgeO` accepts -/
+def judge (g : Given) (dec : Decoded) : String :=
+  match judgeO g dec with
+  | none => "ok"
+  | some why => if why == "ok" then "bad-verdict" else why
 
 end Avo.AsmJudge
